@@ -355,6 +355,8 @@ type c08Field struct {
 	tag       string // "x" or "t:…"
 	// what the generator knows about the constraints (to aim inputs at them)
 	optional, hasDefault, fromString bool
+	depKey                           string
+	depNot                           bool
 	lo, hi                           float64
 	hasRange                         bool
 	options                          []string
@@ -363,6 +365,8 @@ type c08Field struct {
 type c08Ty struct {
 	prim   string
 	ptr    *c08Ty
+	slice  *c08Ty
+	mp     *c08Ty
 	fields []*c08Field
 }
 
@@ -371,6 +375,12 @@ func (t *c08Ty) tokens(sb *strings.Builder) {
 	case t.ptr != nil:
 		sb.WriteString(" *")
 		t.ptr.tokens(sb)
+	case t.slice != nil:
+		sb.WriteString(" []")
+		t.slice.tokens(sb)
+	case t.mp != nil:
+		sb.WriteString(" map")
+		t.mp.tokens(sb)
 	case t.prim != "":
 		sb.WriteString(" " + t.prim)
 	default:
@@ -414,13 +424,15 @@ func c08GenType(r *verifh.Rng, depth int, fromStringAll bool) *c08Ty {
 		switch {
 		case depth < 2 && r.Chance(1, 6):
 			f.ty = c08GenType(r, depth+1, fromStringAll)
+		case r.Chance(1, 7):
+			f.ty = c08GenContainer(r, depth, fromStringAll)
 		default:
 			f.ty = &c08Ty{prim: c08PrimNames[r.Intn(len(c08PrimNames))]}
 			if r.Chance(1, 3) {
 				f.ty.prim = r.PickS("int", "i8", "u8", "f64", "str", "i64")
 			}
 		}
-		if r.Chance(1, 5) {
+		if r.Chance(1, 5) && f.ty.slice == nil && f.ty.mp == nil {
 			f.ty = &c08Ty{ptr: f.ty}
 			if r.Chance(1, 6) {
 				f.ty = &c08Ty{ptr: f.ty}
@@ -457,9 +469,11 @@ func c08GenType(r *verifh.Rng, depth int, fromStringAll bool) *c08Ty {
 			dep := t.fields[(i+1+r.Intn(n-1))%n].key
 			if r.Chance(1, 3) {
 				opts = append(opts, "optional=!"+dep)
+				f.depNot = true
 			} else {
 				opts = append(opts, "optional="+dep)
 			}
+			f.depKey = dep
 			f.optional = true
 		case x < 7 && r.Chance(1, 6):
 			opts = append(opts, r.PickS("optional=!", "optional=a=b", "optional=zz"))
@@ -537,7 +551,15 @@ func c08GenType(r *verifh.Rng, depth int, fromStringAll bool) *c08Ty {
 			}
 		} else {
 			if r.Chance(1, 10) {
-				opts = append(opts, r.PickS("default=x", "range=[1:5]", "options=a|b", "string"))
+				if base.slice != nil || base.mp != nil {
+					opts = append(opts, r.PickS("range=[1:5]", "options=a|b", "string"))
+				} else {
+					opts = append(opts, r.PickS("default=x", "range=[1:5]", "options=a|b", "string"))
+				}
+			}
+			if base.slice != nil && base.slice.prim == "str" && r.Chance(1, 2) {
+				opts = append(opts, r.PickS("default=[a,b]", "default=x", "default=[]"))
+				f.hasDefault = true
 			}
 		}
 		if r.Chance(1, 60) {
@@ -554,6 +576,67 @@ func c08GenType(r *verifh.Rng, depth int, fromStringAll bool) *c08Ty {
 		}
 	}
 	return t
+}
+
+// slice or map[string] of: primitive, pointer to primitive, struct, (rarely) another container
+func c08GenContainer(r *verifh.Rng, depth int, fromStringAll bool) *c08Ty {
+	var elem *c08Ty
+	switch x := r.Intn(10); {
+	case x < 6:
+		elem = &c08Ty{prim: r.PickS("int", "i8", "u8", "f64", "str", "bool", "i64", "u16")}
+		if r.Chance(1, 4) {
+			elem = &c08Ty{ptr: elem}
+		}
+	case x < 8 && depth < 2:
+		elem = c08GenType(r, depth+2, fromStringAll)
+		if r.Chance(1, 3) {
+			elem = &c08Ty{ptr: elem}
+		}
+	case x < 9:
+		elem = c08GenContainer(r, depth+1, fromStringAll)
+	default:
+		elem = &c08Ty{prim: "int"}
+	}
+	if r.Chance(1, 2) {
+		return &c08Ty{slice: elem}
+	}
+	return &c08Ty{mp: elem}
+}
+
+// an element aimed at a slice/map element type
+func c08ElemInput(r *verifh.Rng, t *c08Ty, sb *strings.Builder, inMap bool) {
+	if r.Chance(1, 12) {
+		sb.WriteString(" null")
+		return
+	}
+	if r.Chance(1, 15) {
+		sb.WriteString(" " + r.PickS("true", "s:abc", "n:1", "[ ]", "{ }", "n:300", "s:5", "[ n:1 ]"))
+		return
+	}
+	b := t.base()
+	switch {
+	case b.prim != "":
+		dummy := &c08Field{}
+		asString := !inMap && r.Chance(1, 4)
+		sb.WriteString(" " + c08PrimInput(r, dummy, b.prim, asString))
+	case b.slice != nil:
+		sb.WriteString(" [")
+		n := r.Pick(0, 1, 2, 3)
+		for i := 0; i < n; i++ {
+			c08ElemInput(r, b.slice, sb, false)
+		}
+		sb.WriteString(" ]")
+	case b.mp != nil:
+		sb.WriteString(" {")
+		n := r.Pick(0, 1, 2)
+		for i := 0; i < n; i++ {
+			sb.WriteString(" " + r.PickS("k", "j", "a", "zz"))
+			c08ElemInput(r, b.mp, sb, true)
+		}
+		sb.WriteString(" }")
+	default:
+		c08GenInput(r, b, sb, false, false, r.Pick(75, 100))
+	}
 }
 
 func c08IntLit(r *verifh.Rng, f *c08Field, p string) string {
@@ -661,8 +744,27 @@ func c08PrimInput(r *verifh.Rng, f *c08Field, p string, asString bool) string {
 
 func c08GenInput(r *verifh.Rng, t *c08Ty, sb *strings.Builder, fsAll, fa bool, pPresent int) {
 	sb.WriteString(" {")
+	// presence, then (mostly) repaired so that optional=dep / optional=!dep hold
+	present := map[string]bool{}
 	for _, f := range t.fields {
-		if !r.Chance(pPresent, 100) {
+		present[f.key] = r.Chance(pPresent, 100)
+	}
+	if r.Chance(4, 5) {
+		for pass := 0; pass < 3; pass++ {
+			for _, f := range t.fields {
+				if f.depKey == "" {
+					continue
+				}
+				if f.depNot {
+					present[f.key] = !present[f.depKey]
+				} else {
+					present[f.key] = present[f.depKey]
+				}
+			}
+		}
+	}
+	for _, f := range t.fields {
+		if !present[f.key] {
 			continue
 		}
 		key := f.key
@@ -675,6 +777,30 @@ func c08GenInput(r *verifh.Rng, t *c08Ty, sb *strings.Builder, fsAll, fa bool, p
 			continue
 		}
 		base := f.ty.base()
+		if base.slice != nil || base.mp != nil {
+			if fsAll && base.slice != nil && base.slice.base().prim != "" {
+				// form values: array of strings
+				sb.WriteString("[")
+				n := r.Pick(1, 2, 3)
+				for i := 0; i < n; i++ {
+					sb.WriteString(" " + c08PrimInput(r, &c08Field{}, base.slice.base().prim, true))
+				}
+				sb.WriteString(" ]")
+				continue
+			}
+			if r.Chance(1, 12) {
+				sb.WriteString(r.PickS("n:1", "true", "{ }", "[ ]", "n:5"))
+				continue
+			}
+			var inner strings.Builder
+			c08ElemInput(r, base, &inner, false)
+			v := strings.TrimSpace(inner.String())
+			if strings.HasPrefix(v, "s:") {
+				v = "n:7" // a string for a slice/map field is JSON text: outside the model
+			}
+			sb.WriteString(v)
+			continue
+		}
 		if base.prim != "" {
 			asString := fsAll || (f.fromString && r.Chance(4, 5)) || r.Chance(1, 30)
 			v := c08PrimInput(r, f, base.prim, asString)
@@ -715,7 +841,10 @@ func c08Gen(r *verifh.Rng) []verifh.Section {
 			ops = append(ops,
 				"u key=json fs=0 fa=0 T { A int t:a,optional B int t:b,optional=a,range=[1:5] } I { a n:1 b n:100 }",
 				"u key=json fs=0 fa=0 T { F f64 t:f,string,range=[1:5] } I { f s:NaN }",
-				"u key=form fs=1 fa=1 T { F f64 t:f,range=[1:5] } I { f [ s:nan ] }")
+				"u key=form fs=1 fa=1 T { F f64 t:f,range=[1:5] } I { f [ s:nan ] }",
+				"u key=form fs=1 fa=1 T { F str t:a,optional } I { a null }",
+				"u key=json fs=0 fa=0 T { M map * int t:m } I { m { k n:1 } }",
+				"u key=json fs=0 fa=0 T { M map [] int t:m } I { m { k null } }")
 		}
 		ntypes := verifh.Scale(12, 30)
 		for k := 0; k < ntypes; k++ {
